@@ -214,7 +214,7 @@ func genC04(seed uint64, idx int) *Plan {
 		base := genScriptBase(r)
 		base.Chunks, base.ReadBuf, base.Trailer = nil, 0, nil
 		base.ExtraIn = max(base.ExtraIn, 2)
-		kind := []string{"hello2-outersni", "hello2-innertype", "hello2-noech", "hello2-id", "hello2-suite-pre", "hello2-enc", "hello2-fresh", "hello2-nover"}[r.IntN(8)]
+		kind := []string{"hello2-outersni", "hello2-innertype", "hello2-noech", "hello2-id", "hello2-suite-pre", "hello2-enc", "hello2-fresh", "hello2-nover", "hello2-enc-same"}[r.IntN(9)]
 		h := &HistoryPlan{Base: *base, Concurrent: r.IntN(3) == 0}
 		if r.IntN(2) == 0 {
 			h.Steps = append(h.Steps, HStep{Side: "c", Kind: "ccs"})
